@@ -113,6 +113,7 @@ def run(ctx, rep):
         check_key(crate, rep, cfg)
         from props import c13
         c13.check_cmp(crate, rep, cfg)      # == / < on numbers compare exact mathematical values (no lossy cast of a compared operand)
+        check_str_eq(crate, rep, cfg)
     pos = ctx.posctl()
     check_posctl(ctx, pos)
 
@@ -478,3 +479,27 @@ def hash_classes_agree(crate, f):
     if any(x != strs[0] for x in strs) or any(x != nums[0] for x in nums):
         return False
     return strs[0] == {"str"} and any("KeyNumber" in x for x in nums[0]) and len(nums[0]) == 1
+
+
+def check_str_eq(crate, rep, cfg):
+    """C15.STR — strings are equal when their CONTENT is equal, whatever their storage (inline / heap) and their safe mark: `==`, `<` and
+    Ord::cmp on two strings all go through SmartString::as_str(), and SmartString has no equality of its own that could look at the
+    representation."""
+    own = sorted(p_ for p_ in crate.bodies if "SmartString" in p_ and ("PartialEq" in p_ or "PartialOrd" in p_ or "cmp::Ord" in p_ or "::Eq" in p_))
+    bad_own = []
+    for p_ in own:
+        b = crate.bodies[p_]
+        if b.j.get("from_exp"):
+            bad_own.append(p_ + " (derived: compares the representation)")
+        elif not any(callee_def(t).endswith("SmartString::as_str") for bb, t in b.calls()):
+            bad_own.append(p_ + " (does not go through as_str)")
+    rep.add("C15.STR", "C15.STR:SmartString:no-representation-equality", not bad_own, "tera/src/value/mod.rs", "SmartString has no comparison impl that looks at its representation "
+            "(impls found: %s)" % (own or "none") + ("" if not bad_own else " — VIOLATED: %s: equal text stored differently (inline vs heap, owned key vs literal) compares unequal" % bad_own))
+    # (Ord::cmp answers two strings through partial_cmp's Some — C15.ORD)
+    for suffix, what in (("<value::Value as std::cmp::PartialEq>::eq", "=="), ("<value::Value as std::cmp::PartialOrd>::partial_cmp", "<")):
+        b = crate.one(suffix)
+        n_as = len([1 for bb, t in b.calls() if callee_def(t).endswith("SmartString::as_str")])
+        direct = [callee_def(t) for bb, t in b.calls() if "SmartString" in (t["f"].get("self_ty") or "") and callee_def(t).rsplit("::", 1)[-1] in ("eq", "ne", "partial_cmp", "cmp")]
+        ok = n_as >= 2 and not direct
+        rep.add("C15.STR", "C15.STR:%s:by-content" % suffix, ok, b.where(0), "%s on two strings compares the `as_str()` of both (%d as_str calls)" % (what, n_as)
+                + ("" if ok else " — VIOLATED: compares SmartString values directly: %s" % direct))
